@@ -206,6 +206,25 @@ class Ticker(InstructionGenerator):
         return nxt, ()
 
 
+@_dc.dataclass(frozen=True)
+class Ranker(InstructionGenerator):
+    """a user-written fleet manager of the simplest kind, built from HIVE's own public helper the way a custom generator would be:
+    each step it asks `instruct_vehicles_to_dispatch_to_station` where ONE free vehicle (rotating with the clock) should charge and
+    sends it there, whatever its battery.  A pure function of (state, configuration): stepping a saved state twice must agree."""
+
+    def generate_instructions(self, sim, env):
+        from nrel.hive.dispatcher.instruction_generator.instruction_generator_ops import instruct_vehicles_to_dispatch_to_station
+        free = [v for _, v in sorted(sim.vehicles.items()) if type(v.vehicle_state).__name__ in ("Idle", "Repositioning")]
+        if not free:
+            return self, ()
+        k = int(sim.sim_time) // max(1, int(sim.sim_timestep_duration_seconds))
+        cfg = env.config.dispatcher
+        ins = instruct_vehicles_to_dispatch_to_station(
+            n=1, max_search_radius_km=cfg.max_search_radius_km, vehicles=(free[k % len(free)],), simulation_state=sim, environment=env,
+            target_soc=cfg.ideal_fastcharge_soc_limit, charging_search_type=cfg.charging_search_type)
+        return self, tuple(ins)
+
+
 class Spy(InstructionGenerator):
     """delegates to a real built-in generator and records (state, environment, what it returned)"""
 
